@@ -344,6 +344,12 @@ class Ctx:
             self.violations.append((path, no_input))
 
     def finish(self, level="proof", explanation=None):
+        if not self.violations and self.discharged < self.obligations and not self.known_hits:
+            # an obligation failed but neither a violation nor a listed known finding accounts for it: never
+            # let that pass silently (the restriction below is only for obligations matched by known findings)
+            self.violation({"what": "%d obligation(s) of the check were not discharged and no violation was reported for them"
+                                    % (self.obligations - self.discharged),
+                            "broken": "check-obligation"}, no_input=True)
         for k in self.known_hits:
             print("KNOWN-FINDING: property=%s %s" % (self.prop, k.get("note", k["id"])))
         for path, no_input in sorted(self.violations, key=lambda x: x[1]):
